@@ -87,6 +87,13 @@ class Translator:
         for i, n in self.byid.items():
             if n.get('kind') == 'EnumDecl' and n.get('name') and inner(n):
                 self.enum_by_norm.setdefault(self.norm(self.tname(i), decl=True), n)
+        # alias names of long template types (using stt0 = PseudoRegister<...>): used to keep generated function names readable
+        self.alias_by_norm = {}
+        for i, n in self.byid.items():
+            if n.get('kind') == 'TypeAliasDecl' and n.get('name') and 'type' in n:
+                full = n['type'].get('desugaredQualType') or n['type'].get('qualType') or ''
+                if '<' in full and len(full) > 40:
+                    self.alias_by_norm.setdefault(self.norm(full), n['name'])
         self.out_funcs = collections.OrderedDict()
         self.protos = collections.OrderedDict()
         self.records = collections.OrderedDict()   # cname -> text (emission order = dependency order)
@@ -341,7 +348,7 @@ class Translator:
         if d.get('kind') == 'CXXConstructorDecl': base += '__ctor'
         targs = [self.targ_str(a) for a in d.get('inner', []) if a.get('kind') == 'TemplateArgument']
         if targs:
-            base += '__' + '_'.join(self.cident(self.PRIM.get(a, a)) for a in targs)
+            base += '__' + '_'.join(self.alias_by_norm.get(self.norm(a)) or self.cident(self.PRIM.get(a, a)) for a in targs)
         sibs = self.funcs_by_qual.get(self.qname(i), [])
         if len(sibs) > 1 and not targs:
             # overloads are told apart by their parameter types AS WRITTEN (alias names such as Alm, Rn, StepZIDS), which keeps names short and stable
